@@ -247,13 +247,18 @@ class Reporter:
             self.violated(rule, key, msg_bad or msg_ok, loc, detail)
         return cond
 
-    def floor(self, rule, what, count, minimum):
-        """fail closed when a rule matches fewer instances than were confirmed by hand"""
+    def floor(self, rule, what, count, minimum, hard=False):
+        """Fewer instances than were confirmed by hand on the pinned tree: the rule would pass vacuously.
+        This is NOT evidence that the property is broken (a refactoring moves anchors too), so by default the instance is
+        UNDECIDED — printed, counted in the evidence, never an alarm.  `hard=True` is for floors whose shortfall *is* the
+        violation (a validation rule that no reachable code applies any more)."""
         if count < minimum:
-            self.violated(rule, "floor:" + what,
-                          "kind=anchor-missing: only %d instance(s) of %s found, %d were confirmed "
-                          "on the pinned tree (a large refactor moved the anchor, or the rule "
-                          "would pass vacuously)" % (count, what, minimum))
+            msg = ("kind=anchor-missing: only %d instance(s) of %s found, %d were confirmed on the pinned tree (the code was "
+                   "restructured; this rule does not decide the new shape)" % (count, what, minimum))
+            if hard:
+                self.violated(rule, "floor:" + what, msg)
+            else:
+                self.undecided(rule, "floor:" + what, msg)
         else:
             self.holds(rule, "floor:" + what, "%d instance(s) of %s (floor %d)" % (count, what, minimum))
 
@@ -277,6 +282,10 @@ def run_property(prop, rules, level, explanation, assumptions, tier, all_targets
         P = _PROGRAMS.get(facts_dir)
         if P is None:
             P = _PROGRAMS[facts_dir] = Program(facts_dir)
+        import prov
+        if prov.PROGRAM is not P:
+            prov.PROGRAM = P
+            prov._SUMMARY.clear()
         R.count("crates", len(P.crates))
         R.count("functions", len(P.fns))
         R.count("mir_bodies", len(P.mir))
@@ -285,8 +294,8 @@ def run_property(prop, rules, level, explanation, assumptions, tier, all_targets
         try:
             fn(P, R)
         except AnchorMissing as e:
-            R.violated(rid, "anchor", "kind=anchor-missing: %s (the rule cannot be evaluated; "
-                       "it fails closed rather than pass vacuously)" % e)
+            # an anchor that cannot be resolved is not evidence of a violation: the rule is undecided on this tree
+            R.undecided(rid, "anchor", "kind=anchor-missing: %s (the rule cannot be evaluated on this shape of the code)" % e)
         except SystemExit:
             raise
         except Exception as e:  # a crash of the checker is not a verdict
